@@ -111,7 +111,7 @@ class Ctx:
             if sv.kind == "mem":
                 arr = f0.state[sv.idx]
                 mem_images[sv.idx] = [ev(arr[z3.BitVecVal(a, sv.aw)]) for a in range(sv.depth)]
-        ins = [s for s in nl.input_signals() if s.name not in ("clk", "rst")]
+        ins = [s for s in nl.input_signals() if s.name not in ("clk", "rst") and len(s) > 0]
         stim = []
         for f in frames:
             row = []
